@@ -20,6 +20,7 @@ type specCtx struct {
 	old  *State
 	errs *[]string
 	wantResult int
+	fr   *Frame
 }
 
 func (c *specCtx) fail(format string, a ...any) Val {
@@ -53,7 +54,7 @@ func (x *Exec) evalSpecBool(fr *Frame, st, old *State, n *SpecNode, extra map[st
 	if old == nil {
 		old = st
 	}
-	c := &specCtx{x: x, pkg: pkg, env: env, st: st, old: old}
+	c := &specCtx{x: x, pkg: pkg, env: env, st: st, old: old, fr: fr}
 	v := c.node(n)
 	if len(v.L) != 1 {
 		return c.fail("clause is not boolean: %s", n.Text).L[0]
@@ -79,12 +80,27 @@ func (c *specCtx) node(n *SpecNode) Val {
 		c.x.quantDepth++
 		body := c.node(n.A).S()
 		c.x.quantDepth--
+		q := fmt.Sprintf("(%s ((%s %s)) %s)", n.Op, qv, scalarSort(t), body)
+		// (exists k. P(k)) is equivalent to P(c1) || ... || (exists k. P(k)) for any terms ci:
+		// offer the range-loop indices in scope as witnesses so that solvers need not guess them
+		if n.Op == "exists" && c.fr != nil && c.x.quantDepth == 0 && bvWidth(scalarSort(t)) == 64 {
+			var alts []string
+			for _, cand := range c.fr.indexCandidates() {
+				c.env[n.Var] = Val{T: t, L: []string{cand}}
+				c.x.quantDepth++
+				alts = append(alts, c.node(n.A).S())
+				c.x.quantDepth--
+			}
+			if len(alts) > 0 {
+				q = or(append(alts, q)...)
+			}
+		}
 		if had {
 			c.env[n.Var] = saved
 		} else {
 			delete(c.env, n.Var)
 		}
-		return boolVal(fmt.Sprintf("(%s ((%s %s)) %s)", n.Op, qv, scalarSort(t), body))
+		return boolVal(q)
 	}
 	saved := map[string]*SpecNode{}
 	_ = saved
@@ -156,7 +172,31 @@ func (c *specCtx) concrete(v Val) Val {
 	return v
 }
 
+// nameClosed introduces definitions for long leaf terms that do not mention a
+// bound variable, so that quantified formulas stay small.
+func (c *specCtx) nameClosed(v Val) Val {
+	if v.Const != nil {
+		return v
+	}
+	ls := leavesOf(v.T)
+	if len(ls) != len(v.L) {
+		return v
+	}
+	out := v
+	out.L = append([]string{}, v.L...)
+	for i, t := range out.L {
+		if len(t) > 120 && !strings.Contains(t, "q!") {
+			out.L[i] = c.x.smt.Name("sv", ls[i].Sort, t)
+		}
+	}
+	return out
+}
+
 func (c *specCtx) expr(e ast.Expr, n *SpecNode) Val {
+	return c.nameClosed(c.expr0(e, n))
+}
+
+func (c *specCtx) expr0(e ast.Expr, n *SpecNode) Val {
 	switch t := e.(type) {
 	case *ast.ParenExpr:
 		return c.expr(t.X, n)
